@@ -65,5 +65,11 @@ func IngressPods(ctx context.Context, srcbase ingress.Controller, svcbase servic
 		svcs.Close()
 		return nil, err
 	}
+
+	go func() {
+		<-pods.Done()
+		svcs.Close()
+	}()
+
 	return pods, nil
 }
